@@ -3,6 +3,8 @@ import SciVerif.Props.C03
 import SciVerif.Tie.Pins
 /-! Tie A obligations for C03 on the current source. -/
 namespace SciVerif.Tie
+-- functions the model relies on without an obligation of its own naming them (pinned by bin/mkpins):
+-- PIN-ALSO: Scipipe.Task_tempDirsExist
 open SciVerif.TaskFS
 
 theorem generated_wf_c03 : WF_C03 taskSem := by decide
@@ -34,6 +36,7 @@ theorem c03_converges_on_source (c : Cfg) (hist : List (Nat × Bool)) (m : Nat) 
 
 theorem generated_all_ops_known_c03 : taskSemKnown = true := by decide
 
+
 -- BEGIN PINS (written by bin/mkpins; do not edit by hand)
 /-- the Go functions this property's model and obligations were written against have exactly the
 pinned skeletons (SHA-256 prefix of the atom list) -/
@@ -45,12 +48,13 @@ theorem pinned_skeletons_c03 :
      ("Scipipe.Task_anyOutputsExist", "0609a842b7aaf7a8"),
      ("Scipipe.Task_executeCommand", "98e77d849c0638cb"),
      ("Scipipe.Task_finalizePaths", "9cd0530d4e86fa92"),
-     ("Scipipe.Task_formatCommand", "ccbe98735ce5c7d6")] = true := by decide
+     ("Scipipe.Task_formatCommand", "ccbe98735ce5c7d6"),
+     ("Scipipe.Task_tempDirsExist", "be2c7ee34f64913e")] = true := by decide
 -- END PINS
 
 end SciVerif.Tie
-#print axioms SciVerif.Tie.generated_all_ops_known_c03
 #print axioms SciVerif.Tie.pinned_skeletons_c03
+#print axioms SciVerif.Tie.generated_all_ops_known_c03
 #print axioms SciVerif.Tie.c03_converges_on_source
 #print axioms SciVerif.Tie.generated_wf_c03
 #print axioms SciVerif.Tie.generated_wf_c01_for_c03
